@@ -176,8 +176,9 @@ class Open(object):
                             afi, safi, send_rev = struct.unpack('!HBB', capability.capa_value[:4])
                             self.capa_dict['add_path'].append(
                                 {
-                                    'afi_safi': bgp_cons.AFI_SAFI_DICT[(afi, safi)],
-                                    'send/receive': bgp_cons.ADD_PATH_ACT_DICT[send_rev]
+                                    # a family or a send/receive value this speaker has no name for is kept as it is
+                                    'afi_safi': bgp_cons.AFI_SAFI_DICT.get((afi, safi), (afi, safi)),
+                                    'send/receive': bgp_cons.ADD_PATH_ACT_DICT.get(send_rev, send_rev)
                                 }
                             )
                             capability.capa_value = capability.capa_value[4:]
